@@ -45,5 +45,5 @@ DedupSeq(s) == IF s = <<>> THEN <<>>
                     IN IF \E i \in 1..Len(r) : r[i] = x THEN r ELSE Append(r, x)
 
 \* deterministic stride sampling: keeps about 1/stride of the (di, qi) pairs, shifted by the seed
-Stride(n, di, qi) == n <= 1 \/ ((di * 7919 + qi * 104729 + Seed) % n) = 0
+Stride(n, di, qi) == n <= 1 \/ ((((di % n) * (7919 % n)) + ((qi % n) * (104729 % n)) + (Seed % n)) % n) = 0      \* modular: no 32-bit overflow
 =============================================================================
